@@ -144,6 +144,81 @@ fn check_price(c: &PriceCase, rec: &mut Rec) -> Result<(), String> {
     Ok(())
 }
 
+#[derive(Debug, Clone, Serialize, Deserialize)]
+pub struct PythCase {
+    pub value: u64,
+    pub exponent: i32,
+    pub token_decimals: u8,
+    pub precision: u8,
+}
+
+fn pyth_case() -> impl Strategy<Value = PythCase> {
+    (
+        u64_mix(),
+        prop_oneof![6 => -20i32..=0, 3 => 1i32..=20, 1 => -40i32..=-21, 1 => 21i32..=40, 1 => Just(i32::MIN), 1 => Just(i32::MAX)],
+        0u8..=22,
+        0u8..=22,
+    )
+        .prop_map(|(value, exponent, token_decimals, precision)| PythCase { value, exponent, token_decimals, precision })
+        .boxed()
+        .prop_union(
+            // representable prices with a positive exponent (value * 10^(exponent + precision) must fit 32 bits)
+            (1u64..=40_000, 1i32..=5, 0u8..=16, 0u8..=4)
+                .prop_map(|(value, exponent, token_decimals, precision)| PythCase { value, exponent, token_decimals, precision })
+                .boxed(),
+        )
+}
+
+/// `pyth_price_value_to_decimal`: the provider price is `value * 10^exponent`; the result must be that
+/// exact price truncated to the configured precision (same reference as `try_from_price`), or an error.
+fn check_pyth(c: &PythCase, rec: &mut Rec) -> Result<(), String> {
+    let mut tc: gmsol_utils::token_config::TokenConfig = bytemuck::Zeroable::zeroed();
+    tc.token_decimals = c.token_decimals;
+    tc.precision = c.precision;
+    let got = no_panic(|| gmsol_utils::oracle::pyth_price_value_to_decimal(c.value, c.exponent, &tc)).map_err(|p| format!("pyth_price_value_to_decimal panicked: {p}"))?;
+    let args_ok = c.token_decimals <= 20 && c.precision <= 20 && c.token_decimals + c.precision <= 20;
+    // exact unit price scaled by 10^20: value * 10^(exponent + 20 - token_decimals); the stored value is that
+    // divided by 10^m (floor), m = 20 - token_decimals - precision
+    let m = 20i64 - c.token_decimals as i64 - c.precision as i64;
+    let shift = c.exponent as i64 + 20 - c.token_decimals as i64 - m; // = exponent + precision
+    let exact: Option<BigInt> = if !args_ok || c.exponent < -255 || c.exponent > 60 {
+        None
+    } else if shift >= 0 {
+        Some(b(c.value as u128) * pow10(shift as u32))
+    } else {
+        Some(floor_div(&b(c.value as u128), &pow10((-shift) as u32)))
+    };
+    rec.class_if(c.exponent > 0, "positive_exponent");
+    match got {
+        Ok(d) => {
+            rec.class("converted");
+            let Some(exact) = exact else {
+                return Err(format!("unsupported settings accepted: {c:?} -> {d:?}"));
+            };
+            if d.decimal_multiplier as i64 != m {
+                return Err(format!("decimal multiplier {} != {m} for {c:?}", d.decimal_multiplier));
+            }
+            if b(d.value) != exact {
+                return Err(format!("pyth price {} * 10^{} converted to value {} != exact truncated value {exact} ({c:?})", c.value, c.exponent, d.value));
+            }
+            rec.class_if(c.exponent > 0 && c.value != 0, "positive_exponent_converted");
+            rec.nontrivial_if(c.exponent != 0 && c.value != 0);
+        }
+        Err(_) => {
+            rec.class("rejected");
+            if let Some(exact) = exact {
+                // legitimate failures: the exact value does not fit 32 bits, decimals beyond the supported
+                // maximum (|exponent| > 20 for non-positive exponents), or value * 10^exponent overflowing u64
+                let overflow_u64 = c.exponent > 0 && (pow10(c.exponent as u32) > b(u64::MAX as u128) || b(c.value as u128) * pow10(c.exponent as u32) > b(u64::MAX as u128));
+                if exact <= b(u32::MAX) && c.exponent >= -20 && !overflow_u64 {
+                    return Err(format!("representable pyth price rejected: exact value {exact} ({c:?})"));
+                }
+            }
+        }
+    }
+    Ok(())
+}
+
 pub fn run_c26(ctx: &mut Ctx) {
     ctx.rule("cases = price (u128 mixture, typical 1..1e24, small), price decimals / token decimals / precision 0..=24, a unit price with rounding flag, a 192-bit number with decimals; oracle (BigInt) = Ok(d) => d.value == floor(price*10^(20-dec-tok)/10^m), m = 20-tok-prec, never above the exact unit price and less than one step below; Err <=> an argument > 20, tok+prec > 20, or the exact value > u32::MAX; with_unit_price direction and one-step bound; convert_to_u128_storage == floor(num/10^k) with k at most one above the minimum; non-trivial = non-zero truncation or value next to u32::MAX");
     let n = ctx.cases(300_000, 15_000_000);
@@ -151,6 +226,11 @@ pub fn run_c26(ctx: &mut Ctx) {
     ctx.floor("decimal:converted", 10_000);
     ctx.floor("decimal:non_zero_truncation", 5_000);
     ctx.floor("decimal:storage_divided", 5_000);
+    ctx.rule("search `pyth`: pyth_price_value_to_decimal(value u64, exponent -40..=40 and i32 extremes, token decimals / precision 0..=22): Ok(d) => d.value == floor(value * 10^(exponent + precision)) with multiplier 20 - tok - prec; Err only for unsupported settings, |negative exponent| > 20, 10^exponent or value*10^exponent above u64, or an exact value above u32::MAX; never a panic (exponent i32::MIN used to overflow on negation: fixed in 1bbfe9b)");
+    let n2 = ctx.cases(100_000, 5_000_000);
+    ctx.search("pyth", n2, pyth_case, check_pyth);
+    ctx.floor("pyth:converted", 5_000);
+    ctx.floor("pyth:positive_exponent_converted", 1_000);
 }
 
 // ------------------------------------------------------------------------------------------ C27
